@@ -160,6 +160,7 @@ class History:
         import py4hw.rtl_generation as R
         self.R = R
         self.ops = []                 # executed operations (replay / evidence)
+        self.pending = []
         self.fail = None
 
     def violation(self, what, extra, found_input=True):
@@ -215,6 +216,19 @@ class History:
                 ['newgen'] * 2 + ['getv'] * 5 + ['geth'] * 6 + ['geth_cs'] * 2 + ['geth_shared'] * (1 if lists else 0) +
                 (['clk'] * 4 if self.mode == 'sim' else []) + (['edit'] * 3 if self.mode == 'edit' else []))
             kind = rng.choice(kinds)
+            forced_path = None
+            if self.pending:
+                kind, forced_path = self.pending.pop(0)
+            elif kind == 'edit' and rng.random() < .7:
+                # directed: ask for an object, edit it, ask again (what the clearing at the entry points is for)
+                ci_ = rng.randrange(len(A))
+                pth = L.edit_target(A[ci_])
+                gsame = [k for k, gg in enumerate(gens) if gg[1] == ci_]
+                if gsame:
+                    k1, k2 = rng.choice(['getv', 'geth']), rng.choice(['getv', 'geth'])
+                    gsel = rng.choice(gsame)
+                    self.pending = [('edit', (ci_, None)), (k2, (gsel, pth))]
+                    kind, forced_path = k1, (gsel, pth)
             if kind == 'newgen':
                 ci = rng.randrange(len(A)); objs = A[ci].objs()
                 path = '' if rng.random() < .6 else rng.choice(list(objs))
@@ -242,7 +256,7 @@ class History:
                                    {'wire': netlist.all_wires(A[ci].hw)[k].getFullPath(), 'with_generation': vals[0][k], 'without': vals[1][k]})
                 continue
             if kind == 'edit':
-                ci = rng.randrange(len(A))
+                ci = forced_path[0] if forced_path else rng.randrange(len(A))
                 p = L.apply_edit(A[ci]); L.apply_edit(B[ci])
                 modtext[ci] = {}
                 self.refresh_names()
@@ -255,10 +269,11 @@ class History:
                         tie = False
                 continue
             # ---- a generation request
-            gi = rng.randrange(len(gens)); g, ci, rootpath, _ = gens[gi]
+            gi = forced_path[0] if forced_path else rng.randrange(len(gens)); g, ci, rootpath, _ = gens[gi]
             objs = A[ci].objs()
             r = rng.random()
-            if r < .35: path = None
+            if forced_path: path = forced_path[1]
+            elif r < .35: path = None
             else:
                 pool = [p for p, o in objs.items() if not g.isInlinable(o)] if rng.random() < .85 else list(objs)
                 path = rng.choice(pool)
@@ -313,6 +328,16 @@ class History:
                                {'got': res[1][:300] if res[0] == 'exc' else None, 'expected': res3[1][:300] if res3[0] == 'exc' else None,
                                 'first_difference': first_diff(res[1], res3[1]) if res[0] == res3[0] == 'ok' else None,
                                 'object': target.getFullPath()}); break
+            # oracle 3: a hierarchy answer is the composition of single-module answers over the walk (C19_chunks_local)
+            if op['op'] == 'geth' and res[0] == 'ok' and rng.random() < (.4 if self.ctx.quick else .25):
+                exp = self.compose(g, target, op, pre)
+                if exp is not None:
+                    got = [b for b in (x.rstrip('\n') for x in res[1].split(L.HEADER)) if b]
+                    if [L.canon(x) for x in got] != [L.canon(x) for x in exp]:
+                        k = [i for i in range(max(len(got), len(exp))) if i >= len(got) or i >= len(exp) or L.canon(got[i]) != L.canon(exp[i])][0]
+                        self.violation('a hierarchy answer is not the composition of the single-module answers of the blocks it walks',
+                                       {'object': target.getFullPath(), 'module_index': k,
+                                        'got': (got[k] if k < len(got) else '<missing>')[:400], 'expected': (exp[k] if k < len(exp) else '<missing>')[:400]}); break
             # createdStructures passed again: known finding F1
             if shared_entry is not None:
                 shared_entry[3] += 1
@@ -342,6 +367,30 @@ class History:
         if tie and not self.fail and env0 is not None:
             return {'env': env0, 'reqs': reqs, 'expect': expect, 'strs': self.tk.strs, 'hist': self}
         return None
+
+    def compose(self, g, target, op, pre):
+        """expected modules of getVerilogForHierarchy(target): pre-order walk over non-inlinable children, one getVerilog per
+        block on a new generator, a module name only once (names already in the createdStructures list are skipped)"""
+        py4hw, R = self.py4hw, self.R
+        created, out = list(pre or []), []
+        def walk(o, top):
+            noinst = op['noinst'] if top else False
+            force = op['force'] if top else None
+            name = force if force is not None else R.getVerilogModuleName(o, noInstanceNumber=noinst)
+            if name not in created:
+                r = fresh_call(py4hw, R, o, {'op': 'getv', 'noinst': noinst, 'force': force}, o, None)
+                if r[0] != 'ok': raise L.NotDumpable(r[1])
+                for b in (x.rstrip('\n') for x in r[1].split(L.HEADER)):
+                    if b: out.append(b)
+                if not r[1].startswith('// WARNING: inlined out of scope'):
+                    created.append(name)
+            for ch in o.children.values():
+                if not g.isInlinable(ch): walk(ch, False)
+        try:
+            walk(target, True)
+        except L.NotDumpable:
+            return None
+        return out
 
     def rename_list(self, names, ca, cb):
         """instance-unique names of circuit A in a createdStructures list -> the names of the same objects in copy B"""
@@ -493,11 +542,16 @@ def fixed_scenarios(ctx):
     import py4hw.rtl_generation as R
     U = L.user_classes()
     # F1: the witness of C19_shared_list_refuted
-    with quiet():
-        c = L.build('lib', 5)
-        g = py4hw.VerilogGenerator(c.hw); lst = []
-        t1 = g.getVerilogForHierarchy(createdStructures=lst)
-        t2 = g.getVerilogForHierarchy(createdStructures=lst)
+    try:
+        with quiet():
+            c = L.build('lib', 5)
+            g = py4hw.VerilogGenerator(c.hw); lst = []
+            t1 = g.getVerilogForHierarchy(createdStructures=lst)
+            t2 = g.getVerilogForHierarchy(createdStructures=lst)
+    except Exception as ex:
+        ctx.violation({'what': 'getVerilogForHierarchy raised %s: %s on a legal circuit' % (type(ex).__name__, str(ex)[:200]), 'circuit': ('lib', 5),
+                       'request': 'VerilogGenerator(hw).getVerilogForHierarchy(createdStructures=[])'})
+        return []
     ctx.count(('fixed', 'F1'))
     k = {f['id']: f for f in ctx.known if f.get('status') == 'known'}
     if L.canon(t1) != L.canon(t2):
@@ -520,14 +574,19 @@ def fixed_scenarios(ctx):
                     shared_defaults.append('%s:%d' % (rel, fn.lineno))
     ctx.notes['createdStructures_mutable_default'] = shared_defaults
     # F2: the witness of C19_scope_shared_name_refuted
-    with quiet():
-        hw = py4hw.HWSystem()
-        x = hw.wire('x', 8); y = hw.wire('y', 8); z = hw.wire('z', 8); r1 = hw.wire('r1', 8); r2 = hw.wire('r2', 8); l = hw.wire('l')
-        py4hw.Add(hw, 'u1', x, x, r1)
-        bx = U['Box2'](hw, 'bx', y, z, r2, l)
-        g = py4hw.VerilogGenerator(hw)
-        ta = dict(modules_of(g.getVerilogForHierarchy()))
-        tb = dict(modules_of(g.getVerilogForHierarchy(bx)))
+    try:
+        with quiet():
+            hw = py4hw.HWSystem()
+            x = hw.wire('x', 8); y = hw.wire('y', 8); z = hw.wire('z', 8); r1 = hw.wire('r1', 8); r2 = hw.wire('r2', 8); l = hw.wire('l')
+            py4hw.Add(hw, 'u1', x, x, r1)
+            bx = U['Box2'](hw, 'bx', y, z, r2, l)
+            g = py4hw.VerilogGenerator(hw)
+            ta = dict(modules_of(g.getVerilogForHierarchy()))
+            tb = dict(modules_of(g.getVerilogForHierarchy(bx)))
+    except Exception as ex:
+        ctx.violation({'what': 'getVerilogForHierarchy raised %s: %s on a legal circuit' % (type(ex).__name__, str(ex)[:200]),
+                       'circuit': 'HWSystem{u1=Add(x,x,r1); bx=Box2{add=Add(a,b,r)}}'})
+        return []
     ctx.count(('fixed', 'F2'))
     if ta.get('Add8') != tb.get('Add8'):
         if 'C19-F2' in k:
